@@ -106,4 +106,47 @@ theorem torch_mm_vec (A : List Nat) (m k p : Nat) :
 theorem torch_mm_scalar (a : List Nat) : torchMatmulShape? a [] = none := by
   simp [torchMatmulShape?]
 
+open Impl in
+/-- the batch check of the fixed `expand` = torch's expand rule (with `-1`), all ranks. -/
+theorem expandBatchOkRev_iff_torch : ∀ (o : List Nat) (t : List Int),
+    expandBatchOkRev o t = true ↔ (torchExpandRev o t).isSome = true
+  | [], [] => by simp [expandBatchOkRev, torchExpandRev]
+  | [], t :: ts => by
+    have ih := expandBatchOkRev_iff_torch [] ts
+    simp only [expandBatchOkRev, List.all_cons, Bool.and_eq_true, decide_eq_true_eq] at ih ⊢
+    simp only [torchExpandRev]
+    by_cases h : t < 0
+    · simp [h]; omega
+    · simp only [h, if_false, Option.isSome_map]
+      rw [← ih]
+      constructor
+      · intro ⟨_, h2⟩; exact h2
+      · intro h2; exact ⟨by omega, h2⟩
+  | _ :: _, [] => by simp [expandBatchOkRev, torchExpandRev]
+  | o :: os, t :: ts => by
+    have ih := expandBatchOkRev_iff_torch os ts
+    simp only [expandBatchOkRev, torchExpandRev, Bool.and_eq_true, Bool.or_eq_true, decide_eq_true_eq]
+    by_cases h1 : t = -1
+    · simp [h1, ih]
+    · by_cases h2 : t < 0
+      · simp [h1, h2]; omega
+      · simp only [h1, h2, if_false, false_or]
+        by_cases h3 : (o : Int) = t ∨ o = 1
+        · simp only [h3, if_true, Option.isSome_map]
+          rw [← ih]
+          constructor
+          · intro ⟨_, h⟩; exact h
+          · intro h; refine ⟨⟨by omega, ?_⟩, h⟩
+            rcases h3 with h3 | h3
+            · left; omega
+            · right; exact h3
+        · simp only [h3, if_false]
+          constructor
+          · intro ⟨⟨_, h⟩, _⟩
+            exfalso; apply h3
+            rcases h with h | h
+            · left; omega
+            · right; exact h
+          · intro h; simp at h
+
 end LinOp.C19
